@@ -124,7 +124,8 @@ func GeneratePBBinaryMessage(w io.Writer, m protoreflect.ProtoMessage) error {
 	if m == nil {
 		return fmt.Errorf("module is nil")
 	}
-	bytes, err := proto.Marshal(m)
+	// deterministic: map entries are written in key order, so the same module always gives the same bytes
+	bytes, err := proto.MarshalOptions{Deterministic: true}.Marshal(m)
 	if err != nil {
 		return err
 	}
